@@ -1,33 +1,36 @@
 #!/bin/bash
-# Confirm a seeded change in its scratch worktree: demo passes without the patch, fails with it,
-# existing tests pass with it. usage: confirm_seeded.sh <wt-dir> <dest-id> [pkg]
-# Copies patch.diff, demo and a meta stub into /verif/seeded/<dest-id>/ with confirm.log.
-wt=$1; id=$2; pkg=${3:-polytune}
-dest=/verif/seeded/$id
-mkdir -p $dest
-cp $wt/SEEDED/patch.diff $dest/patch.diff
-cp -r $wt/SEEDED/demo $dest/
-cp $wt/SEEDED/NOTES.md $dest/NOTES.md 2>/dev/null
-log=$dest/confirm.log
-: > $log
-cd $wt || exit 2
+# Confirm seeded changes in ONE scratch worktree of /repo's HEAD (/tmp/wt-confirm, shared target dir):
+# demo passes without the patch, fails with it, existing tests pass with it.
+# usage: confirm_seeded.sh <id> [<id> ...]     (artifacts in /verif/seeded/<id>/: patch.diff, demo/*.rs)
 export CARGO_NET_OFFLINE=true
-git checkout -q -- . 2>/dev/null
-demo=$(ls SEEDED/demo/*.rs | head -1); name=$(basename $demo .rs)
-if [ "$pkg" = "polytune" ]; then tdir=tests; else tdir=crates/$pkg/tests; mkdir -p $tdir; fi
-cp $demo $tdir/$name.rs
-echo "== demo WITHOUT patch (expect pass)" >> $log
-nice cargo test --offline -p $pkg --test $name -- --test-threads=2 >> $log 2>&1; rc0=$?
-git apply SEEDED/patch.diff || { echo "patch does not apply" >> $log; exit 2; }
-echo "== demo WITH patch (expect fail)" >> $log
-nice cargo test --offline -p $pkg --test $name -- --test-threads=2 >> $log 2>&1; rc1=$?
-rm -f $tdir/$name.rs
-echo "== existing tests WITH patch (expect pass)" >> $log
-nice cargo test --offline -p polytune --lib >> $log 2>&1; t1=$?
-nice cargo test --offline -p polytune --test protocol -- --skip eval_mixed_circuits --skip eval_garble_prg_3pc >> $log 2>&1; t2=$?
-nice cargo test --offline -p polytune-server-core >> $log 2>&1; t3=$?
-t4=0
-if git diff --name-only | grep -q "crates/"; then nice cargo test --offline -p polytune-http-server >> $log 2>&1; t4=$?; fi
-git checkout -q -- .
-echo "RESULT id=$id demo_without=$rc0 demo_with=$rc1 lib=$t1 protocol=$t2 server_core=$t3 http=$t4" | tee -a $log
-if [ $rc0 = 0 ] && [ $rc1 != 0 ] && [ $t1 = 0 ] && [ $t2 = 0 ] && [ $t3 = 0 ] && [ $t4 = 0 ]; then echo CONFIRMED | tee -a $log; else echo NOT-CONFIRMED | tee -a $log; fi
+wt=/tmp/wt-confirm
+if [ ! -d $wt ]; then git -C /repo worktree add --detach $wt HEAD >/dev/null 2>&1 || exit 2; fi
+cd $wt || exit 2
+git checkout -q --detach $(git -C /repo rev-parse HEAD) 2>/dev/null
+for id in "$@"; do
+  src=/verif/seeded/$id
+  log=$src/confirm.log
+  : > $log
+  git checkout -q -- .
+  echo "base commit: $(git rev-parse --short HEAD)" >> $log
+  pkg=polytune
+  if grep -q "^+++ b/crates/polytune-server-core" $src/patch.diff || grep -qs "polytune_server_core" $src/demo/*.rs; then pkg=polytune-server-core; fi
+  demo=$(ls $src/demo/*.rs | head -1); name=$(basename $demo .rs)
+  if [ "$pkg" = "polytune" ]; then tdir=tests; else tdir=crates/$pkg/tests; mkdir -p $tdir; fi
+  cp $demo $tdir/$name.rs
+  echo "== demo WITHOUT patch (expect pass)" >> $log
+  nice cargo test --offline -p $pkg --test $name -- --test-threads=2 >> $log 2>&1; rc0=$?
+  if ! git apply $src/patch.diff 2>>$log; then echo "RESULT id=$id patch does not apply" | tee -a $log; rm -f $tdir/$name.rs; continue; fi
+  echo "== demo WITH patch (expect fail)" >> $log
+  nice cargo test --offline -p $pkg --test $name -- --test-threads=2 >> $log 2>&1; rc1=$?
+  rm -f $tdir/$name.rs
+  echo "== existing tests WITH patch (expect pass)" >> $log
+  nice cargo test --offline -p polytune --lib >> $log 2>&1; t1=$?
+  nice cargo test --offline -p polytune --test protocol -- --skip eval_mixed_circuits --skip eval_garble_prg_3pc >> $log 2>&1; t2=$?
+  nice cargo test --offline -p polytune-server-core >> $log 2>&1; t3=$?
+  t4=0
+  if git diff --name-only | grep -q "crates/"; then nice cargo test --offline -p polytune-http-server >> $log 2>&1; t4=$?; fi
+  git checkout -q -- .
+  echo "RESULT id=$id demo_without=$rc0 demo_with=$rc1 lib=$t1 protocol=$t2 server_core=$t3 http=$t4" | tee -a $log
+  if [ $rc0 = 0 ] && [ $rc1 != 0 ] && [ $t1 = 0 ] && [ $t2 = 0 ] && [ $t3 = 0 ] && [ $t4 = 0 ]; then echo "CONFIRMED $id" | tee -a $log; else echo "NOT-CONFIRMED $id" | tee -a $log; fi
+done
